@@ -40,12 +40,8 @@ class State:
     __slots__ = ["__s"]
 
     def __init__(self, state: list) -> None:
-        # If already list then assign to attribute
-        if isinstance(state, list):
-            self.__s = state
-        # Otherwise try to convert
-        else:
-            self.__s = list(state)
+        # Always store a copy so later edits to a provided list have no effect
+        self.__s = list(state)
         return
 
     @property
